@@ -263,7 +263,14 @@ func vlbRun(bh *vlbBehaviour) (outs []vlbOut) {
 				o.Frees++
 			case "malloc", "ignored_free":
 			default:
-				o.Bad = append(o.Bad, fmt.Sprintf("ledger: %s (block #%d cap %d)", e.Kind, e.Serial, e.Cap))
+				what := "unread"
+				if e.Prot > 0 && e.Prot < 1000 {
+					what = "result"
+				}
+				if e.Kind != "early_free" {
+					what = ""
+				}
+				o.Bad = append(o.Bad, fmt.Sprintf("ledger: %s %s (block #%d cap %d)", e.Kind, what, e.Serial, e.Cap))
 			}
 		}
 		for id, b := range bufs {
